@@ -288,7 +288,21 @@ func genConfig(t *rapid.T, tr memfs.Tree, o cfgOpts) walkmodel.Config {
 	dirs := treeDirs(tr)
 	files := treeFiles(tr)
 	cfg := walkmodel.Config{}
+	// symlinks whose target is a directory: a path that looks like a directory to a user
+	var dirLinks []string
+	if mf := memfs.New(tr, memfs.Options{}); true {
+		for _, n := range tr.Nodes {
+			if n.Kind == memfs.KSymlink {
+				if _, tn, err := mf.Lookup(n.Path, true); err == nil && tn.Kind == memfs.KDir {
+					dirLinks = append(dirLinks, n.Path)
+				}
+			}
+		}
+	}
 	pickDir := func(label string) string {
+		if len(dirLinks) > 0 && rapid.IntRange(0, 4).Draw(t, label+"_link") == 0 {
+			return rapid.SampledFrom(dirLinks).Draw(t, label+"_l")
+		}
 		if len(dirs) == 0 {
 			return "nodir"
 		}
